@@ -591,7 +591,6 @@ func decodeCases(gen string, yield func(dc decodeCase) error) error {
 	return nil
 }
 
-
 func init() { childRoles["decode-child"] = decodeChild }
 
 // decodeChild <gen> <out> <start>: decodes case start, start+1, ... and appends one line per case to <out>.
